@@ -66,6 +66,7 @@ class Program:
         s.root = root; s.events = list(events); s.evt_base = evt_base or {}
         s.name = name or root.name
         s.flags = []
+        s.full_key = False
         s.machines = []      # DFS order; root first
         s.all_states = []    # global index -> St or Machine (machine-as-state)
         s._index(root, ())
@@ -134,7 +135,9 @@ class Conf:
 
     def key(s):
         act = set(m.name for m in s.active_machines()) if s.started else set()
-        hm = {m.name: m.history != 'none' for m in s.prog.machines}
+        # FULL_KEY: the last-active ids of exited submachines are part of the abstract state even without history
+        # (the real machines keep them; a no-history machine must not depend on them - C08 checks exactly that)
+        hm = {m.name: (m.history != 'none' or s.prog.full_key) for m in s.prog.machines}
         return (s.started, tuple((n, tuple(v['active']) if n in act else None,
                                   tuple(v['hist']) if (v['hist'] and hm[n]) else None)
                                  for n, v in sorted(s.m.items())),
